@@ -451,6 +451,7 @@ pub fn prepare_world(s: &Scenario, root: &Path) -> Result<PreparedWorld, String>
             store: None,
             build_sboms: Vec::new(),
             launch_sboms: Vec::new(),
+            launch_sboms_first: false,
         },
     };
     let arg0 = if s.build_phase { "build" } else { "detect" };
@@ -460,6 +461,7 @@ pub fn prepare_world(s: &Scenario, root: &Path) -> Result<PreparedWorld, String>
         env,
         cwd: d.app.clone(),
         shim_plan: None,
+        exe_file_name: None,
     };
     Ok(PreparedWorld {
         inv,
